@@ -6,7 +6,11 @@ import (
 	"context"
 	"fmt"
 	"net"
+	"runtime"
 	"strconv"
+	"strings"
+	"sync"
+	"sync/atomic"
 	"time"
 
 	"go.miragespace.co/specter/spec/protocol"
@@ -40,14 +44,56 @@ func (c *fakeConn) Close() error {
 }
 
 type op struct {
-	kind string // hc ht ic it
-	k    int
-	id   int64 // hc: -1 = physical (nil target); ic: -1 = nil identity
-	tag  int
+	kind  string // hc ht ic it par
+	k     int
+	id    int64 // hc: -1 = physical (nil target); ic: -1 = nil identity
+	tag   int
+	batch []op // par: registrations (hc / ht) issued concurrently, pairwise distinct (table, kind, target)
+}
+
+// item renders one registration of a concurrent batch: <kind>:<id|phys|tun>:<tag>
+func (o op) item() string {
+	t := "tun"
+	if o.kind == "hc" {
+		t = "phys"
+		if o.id >= 0 {
+			t = strconv.FormatInt(o.id, 10)
+		}
+	}
+	return fmt.Sprintf("%d:%s:%d", o.k, t, o.tag)
+}
+
+func parseItem(s string) (op, bool) {
+	f := strings.Split(s, ":")
+	if len(f) != 3 {
+		return op{}, false
+	}
+	k, e1 := strconv.Atoi(f[0])
+	tag, e2 := strconv.Atoi(f[2])
+	if e1 != nil || e2 != nil {
+		return op{}, false
+	}
+	switch f[1] {
+	case "tun":
+		return op{kind: "ht", k: k, tag: tag}, true
+	case "phys":
+		return op{kind: "hc", k: k, id: -1, tag: tag}, true
+	}
+	id, e := strconv.ParseInt(f[1], 10, 64)
+	if e != nil {
+		return op{}, false
+	}
+	return op{kind: "hc", k: k, id: id, tag: tag}, true
 }
 
 func (o op) lhs() string {
 	switch o.kind {
+	case "par":
+		items := make([]string, len(o.batch))
+		for i, b := range o.batch {
+			items[i] = b.item()
+		}
+		return "par " + strings.Join(items, ",")
 	case "hc":
 		t := "phys"
 		if o.id >= 0 {
@@ -98,6 +144,43 @@ func runCase(ops []op) {
 			router.HandleTunnel(protocol.Stream_Type(o.k), handler(o.tag))
 			r.Emit(o.lhs(), "ok")
 			r.Count("register:tunnel")
+		case "par":
+			// all registrations of the batch are released together and have all returned before the next op
+			var (
+				ready  int32
+				goFlag int32
+				done   sync.WaitGroup
+			)
+			for _, b := range o.batch {
+				b := b
+				done.Add(1)
+				go func() {
+					defer done.Done()
+					var target *protocol.Node
+					if b.kind == "hc" && b.id >= 0 {
+						target = &protocol.Node{Id: uint64(b.id), Address: "node"}
+					}
+					h := handler(b.tag)
+					atomic.AddInt32(&ready, 1)
+					for n := 0; atomic.LoadInt32(&goFlag) == 0; n++ {
+						if n > 2000 {
+							runtime.Gosched()
+						}
+					}
+					if b.kind == "ht" {
+						router.HandleTunnel(protocol.Stream_Type(b.k), h)
+					} else {
+						router.HandleChord(protocol.Stream_Type(b.k), target, h)
+					}
+				}()
+			}
+			for atomic.LoadInt32(&ready) != int32(len(o.batch)) {
+				runtime.Gosched()
+			}
+			atomic.StoreInt32(&goFlag, 1)
+			done.Wait()
+			r.Emit(o.lhs(), "ok")
+			r.Count(fmt.Sprintf("register:concurrent-batch:%d", len(o.batch)))
 		default:
 			d := &transport.StreamDelegate{Kind: protocol.Stream_Type(o.k)}
 			if o.id >= 0 {
@@ -154,7 +237,7 @@ loop:
 
 func main() {
 	r = hlib.Start()
-	r.Rule = "case = fresh StreamRouter + random sequence (3..24) of registrations (HandleChord virtual/physical, HandleTunnel; kinds 0..5, target ids {0,1,2,3,2^48-1}, re-registration frequent) interleaved with incoming chord streams (kind, identity id or nil identity) and incoming tunnel streams; outcome = tag of the handler invoked with that very delegate, or closed; non-trivial = at least one incoming stream"
+	r.Rule = "case = fresh StreamRouter + random sequence (3..24) of registrations (HandleChord virtual/physical, HandleTunnel; kinds 0..5, target ids {0,1,2,3,2^48-1}, re-registration frequent) interleaved with incoming chord streams (kind, identity id or nil identity) and incoming tunnel streams; plus concurrent-registration cases: optional sequential prefix, then 1..2 batches of registrations with pairwise distinct (table, kind, target) released together from separate goroutines (1..3 kinds x 0..6 virtual ids, sometimes physical / tunnel), each batch followed by a stream for every registration of the batch and a few others; outcome = tag of the handler invoked with that very delegate, or closed; non-trivial = at least one incoming stream"
 	rng := hlib.NewRng(r.Seed)
 	if r.Replay != "" {
 		var ops []op
@@ -176,13 +259,21 @@ func main() {
 			case "reset":
 				flush()
 			case "hc":
-				ops = append(ops, op{"hc", int(pi(t[1])), pi(t[2]), int(pi(t[3]))})
+				ops = append(ops, op{kind: "hc", k: int(pi(t[1])), id: pi(t[2]), tag: int(pi(t[3]))})
 			case "ht":
-				ops = append(ops, op{"ht", int(pi(t[1])), 0, int(pi(t[2]))})
+				ops = append(ops, op{kind: "ht", k: int(pi(t[1])), tag: int(pi(t[2]))})
 			case "ic":
-				ops = append(ops, op{"ic", int(pi(t[1])), pi(t[2]), 0})
+				ops = append(ops, op{kind: "ic", k: int(pi(t[1])), id: pi(t[2])})
 			case "it":
-				ops = append(ops, op{"it", int(pi(t[1])), 0, 0})
+				ops = append(ops, op{kind: "it", k: int(pi(t[1]))})
+			case "par":
+				var b []op
+				for _, it := range strings.Split(t[1], ",") {
+					if x, ok := parseItem(it); ok {
+						b = append(b, x)
+					}
+				}
+				ops = append(ops, op{kind: "par", batch: b})
 			}
 		}
 		flush()
@@ -207,23 +298,115 @@ func main() {
 			}
 			switch {
 			case x < 2:
-				ops = append(ops, op{"hc", k, hlib.Pick(rng, ids), tag})
+				ops = append(ops, op{kind: "hc", k: k, id: hlib.Pick(rng, ids), tag: tag})
 				tag++
 			case x == 2:
-				ops = append(ops, op{"hc", k, -1, tag})
+				ops = append(ops, op{kind: "hc", k: k, id: -1, tag: tag})
 				tag++
 			case x == 3:
-				ops = append(ops, op{"ht", k, 0, tag})
+				ops = append(ops, op{kind: "ht", k: k, tag: tag})
 				tag++
 			case x < 8:
 				id := hlib.Pick(rng, ids)
 				if rng.Chance(8) {
 					id = -1
 				}
-				ops = append(ops, op{"ic", k, id, 0})
+				ops = append(ops, op{kind: "ic", k: k, id: id})
 			default:
-				ops = append(ops, op{"it", k, 0, 0})
+				ops = append(ops, op{kind: "it", k: k})
 			}
+		}
+		runCase(ops)
+	}
+	// Concurrent registration scenarios (own random stream, so the sequential cases above are unchanged):
+	// several virtual nodes of one process attach to the shared router at the same time.  The registrations of
+	// a batch have pairwise distinct (table, kind, target), so every linearisation gives the same tables and the
+	// statement decides each later stream: the handler registered for (type, target) must get it.
+	rng2 := hlib.NewRng(r.Seed ^ 0x42c0ffee42)
+	n2 := 4000
+	if r.Thorough() {
+		n2 = 60000
+	}
+	ids2 := []int64{0, 1, 2, 3, 4, 5, 6, 7, 1000, 1<<48 - 1}
+	for c := 0; c < n2; c++ {
+		nk := 1 + rng2.Intn(3)
+		var ops []op
+		tag := 1
+		// sequential prefix: some kinds may already have a node-wide / tunnel / virtual handler
+		for i, np := 0, rng2.Intn(3); i < np; i++ {
+			k := rng2.Intn(nk)
+			switch rng2.Intn(4) {
+			case 0:
+				ops = append(ops, op{kind: "hc", k: k, id: hlib.Pick(rng2, ids2), tag: tag})
+			case 1:
+				ops = append(ops, op{kind: "ht", k: k, tag: tag})
+			default:
+				ops = append(ops, op{kind: "hc", k: k, id: -1, tag: tag})
+			}
+			tag++
+		}
+		rounds := 1
+		if rng2.Chance(25) {
+			rounds = 2 // second batch: re-registration over existing per-kind maps
+		}
+		for rd := 0; rd < rounds; rd++ {
+			var batch []op
+			for k := 0; k < nk; k++ {
+				perm := rng2.Intn(len(ids2))
+				nid := 2 + rng2.Intn(5)
+				if rng2.Chance(15) {
+					nid = rng2.Intn(2)
+				}
+				for j := 0; j < nid; j++ {
+					batch = append(batch, op{kind: "hc", k: k, id: ids2[(perm+j)%len(ids2)], tag: tag})
+					tag++
+				}
+				if rng2.Chance(20) {
+					batch = append(batch, op{kind: "hc", k: k, id: -1, tag: tag})
+					tag++
+				}
+				if rng2.Chance(15) {
+					batch = append(batch, op{kind: "ht", k: k, tag: tag})
+					tag++
+				}
+			}
+			if len(batch) == 0 {
+				batch = append(batch, op{kind: "hc", k: 0, id: 1, tag: tag})
+				tag++
+			}
+			for i := len(batch) - 1; i > 0; i-- {
+				j := rng2.Intn(i + 1)
+				batch[i], batch[j] = batch[j], batch[i]
+			}
+			ops = append(ops, op{kind: "par", batch: batch})
+			// every registration of the batch is probed, in random order, plus a few other streams
+			var probes []op
+			for _, b := range batch {
+				switch {
+				case b.kind == "ht":
+					probes = append(probes, op{kind: "it", k: b.k})
+				case b.id >= 0:
+					probes = append(probes, op{kind: "ic", k: b.k, id: b.id})
+				default:
+					probes = append(probes, op{kind: "ic", k: b.k, id: hlib.Pick(rng2, ids2)})
+				}
+			}
+			for i, ne := 0, rng2.Intn(3); i < ne; i++ {
+				if rng2.Chance(70) {
+					id := hlib.Pick(rng2, ids2)
+					if rng2.Chance(10) {
+						id = -1
+					}
+					probes = append(probes, op{kind: "ic", k: rng2.Intn(nk + 1), id: id})
+				} else {
+					probes = append(probes, op{kind: "it", k: rng2.Intn(nk + 1)})
+				}
+			}
+			for i := len(probes) - 1; i > 0; i-- {
+				j := rng2.Intn(i + 1)
+				probes[i], probes[j] = probes[j], probes[i]
+			}
+			ops = append(ops, probes...)
 		}
 		runCase(ops)
 	}
